@@ -32,7 +32,8 @@ ASSUMPTIONS = ['a variable whose i/o type is not declared counts as an output (d
                'online kinds: past-time formulas only; dense: all sensors start at 0']
 REAL = common.REAL_ALL
 STUBS = common.STUBS_ALL
-PROBES = ['predicate_mixes_input_and_output', 'insensitive_predicate_present', 'sensitive_predicate_present', 'standard_with_declarations',
+ENVELOPE_RULES = ['memory-past-above-delayed (F08) for pastified online monitors']
+PROBES = ['pastified', 'predicate_mixes_input_and_output', 'insensitive_predicate_present', 'sensitive_predicate_present', 'standard_with_declarations',
           'vacuity', 'dense_offline', 'dense_online', 'discrete_offline', 'discrete_online', 'predicate_at_equality']
 
 SEMS = ['standard', 'output-robustness', 'input-robustness', 'output-vacuity', 'input-vacuity']
@@ -45,25 +46,41 @@ def gen(rng, tier):
     dense = kind == 'ct'
     nv = rng.randint(1, 3)
     vars_ = common.VARS[:nv]
+    future = mode == 'on' and rng.random() < 0.4
     if mode == 'off':
         ops = common.DENSE_OFFLINE_OPS if dense else set(sg.ALL_OPS)
+    elif dense:
+        ops = set(common.DENSE_PAST_OPS) | ({'eventually_b', 'always_b'} if future else set())
     else:
-        ops = common.DENSE_PAST_OPS if dense else common.PAST_OPS
-    for _ in range(100):
+        ops = set(common.PAST_OPS) | ({'eventually_b', 'always_b', 'until_b', 'next'} if future else set())
+    for _ in range(200):
         ast = sg.gen_formula(rng, sg.GenCfg(vars=vars_, ops=ops, max_depth=rng.randint(2, 4), max_bound=rng.choice([2, 4]),
                                             p_loose=0.03, allow_const_only=rng.random() < 0.1))
-        if any(x[0] == 'pred' for x in sg.walk(ast)) and sg.vars_of(ast):
+        if any(x[0] == 'pred' for x in sg.walk(ast)) and sg.vars_of(ast) and not _memory_above_future(ast):
             break
     io = dict((v, rng.choice(['input', 'output', None])) for v in vars_)
     sem = rng.choice(SEMS)
-    sc = {'kind': kind, 'mode': mode, 'vars': vars_, 'ast': ast, 'io': io, 'sem': sem}
+    pastify = mode == 'on' and (any(x[0] in sg.FUTURE_OPS for x in sg.walk(ast)) or rng.random() < 0.1)
+    sc = {'kind': kind, 'mode': mode, 'vars': vars_, 'ast': ast, 'io': io, 'sem': sem, 'pastify': bool(pastify)}
     if dense:
         sc['signals'] = dict((v, world.gen_dense_signal(rng, rng.randint(1, 6), start_q=0, max_gap_q=4)[0]) for v in vars_)
         sc['nbatches'] = rng.randint(1, 3)
     else:
-        sc['n'] = rng.randint(1, 8)
+        sc['n'] = rng.randint(1, 8) + (int(sg.horizon(ast)) if pastify else 0)
         sc['data'] = world.gen_trace(rng, vars_, sc['n'])
+        common.add_clock(rng, sc)
     return sc
+
+
+def _memory_above_future(ast):
+    for x in sg.walk(ast):
+        if x[0] in sg.MEMORY_PAST and any(sg.horizon(c) > 0 for c in sg.children(x)):
+            return True
+    return False
+
+
+def envelope(sc):
+    return ['memory-past-above-delayed'] if (sc.get('pastify') and _memory_above_future(sc['ast'])) else []
 
 
 def insensitive(sem, io, node):
@@ -102,7 +119,8 @@ def eqn(a, b):
 def desc_of(sc, with_io=True, sem=None):
     dense = sc['kind'] == 'ct'
     text = common.dense_text(sc['ast']) if dense else 'out = ' + sg.to_text(sc['ast']) + ';'
-    d = {'cls': sc['kind'], 'semantics': sem or sc['sem'], 'vars': common.var_decls(sc['vars']), 'spec': text}
+    d = {'cls': sc['kind'], 'semantics': sem or sc['sem'], 'vars': common.var_decls(sc['vars']), 'spec': text,
+         'pastify': bool(sc.get('pastify')) and sc['mode'] == 'on'}
     if with_io:
         d['io'] = dict((v, t) for v, t in sc['io'].items() if t)
     return d
@@ -116,7 +134,7 @@ def evaluate(sc, desc, r):
     if sc['mode'] == 'off':
         if dense:
             return M.ct_evaluate(mon, sc['signals'], sc['vars'])
-        return [p[1] for p in M.dt_evaluate(mon, list(range(sc['n'])), sc['data'])]
+        return [p[1] for p in M.dt_evaluate(mon, common.stamps_of(sc), sc['data'])]
     if dense:
         sig, nb = sc['signals'], sc['nbatches']
         out = []
@@ -128,7 +146,7 @@ def evaluate(sc, desc, r):
         return out
     out = []
     for i in range(sc['n']):
-        out.append(M.dt_update(mon, i, [(v, sc['data'][v][i]) for v in sc['vars']]))
+        out.append(M.dt_update(mon, common.stamps_of(sc)[i], [(v, sc['data'][v][i]) for v in sc['vars']]))
         d = M.state_digest(mon)
         if d:
             r.states.add(d)
@@ -137,6 +155,9 @@ def evaluate(sc, desc, r):
 
 def run(sc):
     r = Result()
+    r.faults.update(sc.get('fired') or {})
+    if sc.get('nbatches', 1) > 1:
+        r.faults['batch_split'] += sc['nbatches'] - 1
     dense = sc['kind'] == 'ct'
     ast, sem, io = sc['ast'], sc['sem'], sc['io']
     used = sg.vars_of(ast)
@@ -161,6 +182,9 @@ def run(sc):
     r.obs.append(out)
     r.evals += 1
     bad = None
+    h = sg.horizon(ast) if sc.get('pastify') else 0
+    if sc.get('pastify'):
+        r.probes['pastified'] += 1
     if dense:
         f = D.from_samples(out) if isinstance(out, list) else None
         s0 = max(sc['signals'][v][0][0] for v in used)
@@ -172,14 +196,32 @@ def run(sc):
             if not D.nondecreasing(out):
                 bad = 'decreasing stamps'
             else:
-                for t in D.check_points([f, ref], lo, hi):
-                    if not eqn(D.at(f, t), D.at(ref, t)):
-                        bad = (t, D.at(f, t), D.at(ref, t))
+                hh = h * common.DENSE_TICK
+                shifted = [(p_[0] + hh, p_[1]) for p_ in ref]
+                for t in D.check_points([f, shifted], lo, hi):
+                    if t - hh < s0:
+                        continue
+                    if not eqn(D.at(f, t), D.at(ref, t - hh)):
+                        bad = (t, D.at(f, t), D.at(ref, t - hh))
                         break
         r.sim_time += max(0.0, e0 - s0)
     else:
-        if len(out) != sc['n'] or not all(eqn(a, b) for a, b in zip(out, ref)):
-            bad = 'values'
+        if len(out) != sc['n']:
+            bad = 'length'
+        elif h == 0:
+            if not all(eqn(a, b) for a, b in zip(out, ref)):
+                bad = 'values'
+        else:
+            # pastified: the i-th update reports sample i-h of the original specification on the prefix 0..i
+            for i in range(int(h), sc['n']):
+                try:
+                    pref = eval_discrete(ast, dict((v, sc['data'][v][:i + 1]) for v in sc['data']), i + 1, pred_hook=hook_list(sem, io))
+                except RefError:
+                    r.discarded = True
+                    return r
+                if not eqn(out[i], pref[i - int(h)]):
+                    bad = ('step', i, out[i], pref[i - int(h)])
+                    break
         r.sim_time += sc['n']
     if bad:
         r.violate('iastl-equals-reference', semantics=sem, io=io, mode=sc['mode'], spec=desc_of(sc)['spec'], kind=sc['kind'],
